@@ -5,6 +5,10 @@
 #include "cpu_model.h"
 #include <stdlib.h>
 typedef struct { const void *vtable; void *ctx; size_t parallel_size; } handle_t;
+uint32_t ll__skinny_has_vec128(void); uint32_t ll__skinny_has_vec256(void);
+#ifndef PRE
+#define PRE 0
+#endif
 static uint32_t stub_init(uint8_t *h) { ((handle_t *)h)->ctx = malloc(8); return 1; }   /* vec init: not the subject here */
 #if WHICH == 1
 uint32_t ll_skinny128_ctr_init(uint8_t *); extern uint8_t ll_skinny128_ctr_def[]; void ll2c_init_skinny128_ctr_c(void);
@@ -78,6 +82,11 @@ void harness(void)
         0
 #endif
         : want128 ? (const void *)V128 : (const void *)GENERIC;
+#if PRE == 1
+    (void)ll__skinny_has_vec128();          /* whatever other initialisation ran earlier in the process must not matter */
+#elif PRE == 2
+    (void)ll__skinny_has_vec256();
+#endif
     CHECK(INIT((uint8_t *)&h1) == 1, "initialisation succeeds");
     CHECK(INIT((uint8_t *)&h2) == 1, "second initialisation succeeds");
     CHECK(cpu_faults == 0, "the probe never executes XGETBV on a system where it would fault");
